@@ -41,6 +41,14 @@ N1 = ["counts", "weighted_bases", "table_proportions", "table_percentages", "row
       "diff_row_idxs"]
 
 
+# outputs read again with warnings turned into errors: the proportions / percentages themselves, which the
+# library computes inside `np.errstate(divide="ignore", invalid="ignore")` blocks ("do not propagate
+# divide-by-zero warnings").  NOT the margin proportions: their 2-D fall-back in cubepart.py divides without
+# such a block and does warn on an empty table on the unchanged tree (a behaviour outside the property text).
+WARN_NAMES = ("row_proportions", "column_proportions", "table_proportions", "row_percentages",
+              "column_percentages", "table_percentages")
+
+
 def g_blocks(b):
     return "(mkB %s %s %s %s)" % (g_mat(b[0][0]), g_mat(b[0][1]), g_mat(b[1][0]), g_mat(b[1][1]))
 
@@ -388,6 +396,8 @@ def evaluate(cases, rep, tag="cases"):
         rep.dist("weighted" if case.get("weighted") else "unweighted")
         if case.get("dominant"):
             rep.dist("dominant-cell(2^20..2^24 respondents in one cell)")
+        if case.get("empty_wave"):
+            rep.dist("empty-wave(one-minus-one difference over a wave without respondents)")
         if any(len(s[1]) > 0 for d in io["subs"] for s in d):
             rep.dist("has_difference")
         if nt:
@@ -419,7 +429,53 @@ def run(tier, seed):
     # and every other proportion of its row / column / table is O(1e-6) - both far outside the 1e-9
     # comparison tolerance yet inside numpy's default `isclose` window.
     cc.dominate_some(cases, seed)
+    # EMPTY-WAVE stream (common_cases.empty_wave): about half of the cases with a categorical-date dimension
+    # lose all respondents of one wave and get a one-minus-one difference over it (zero base in a wave
+    # difference: NaN, quietly)
+    cc.empty_wave_some(cases, seed)
     coq_s, nterms = evaluate(cases, rep)
+    # ---- CA-AS-0TH STRANDS (after seeded change C03-7: the factory handed _Strand its slice index and the
+    # minimum-base threshold in exchanged order, so every strand of a categorical array was item `min_base`):
+    # through a CubeSet whose leading cube is a categorical array, the proportions / percentages of strand k
+    # are those of the univariate analysis of sub-variable k (relational oracle of C06's ca0 section,
+    # restricted to C03's outputs)
+    from harness.props import c06
+    rng_ca = random.Random(seed + 31)
+    n_ca = 14 if tier == "quick" else 200
+    for k in range(n_ca):
+        case = c06.gen_ca0(rng_ca, k)
+        fails = [f for f in c06.check_ca0(case)
+                 if "proportion" in str(f.get("attr", "")) or "percentage" in str(f.get("attr", ""))
+                 or f.get("what") in ("exception", "n_partition_sets", "partition_type")]
+        rcase = {kk: vv for kk, vv in case.items() if not kk.startswith("_")}
+        rcase["leg"] = "ca0"
+        rep.count_case(rcase, True)
+        rep.dist("ca-as-0th-set(min_base=%s)" % case.get("mask_size"))
+        for f in fails[:3]:
+            rep.violation("impl-vs-property", rcase, dict(f, what="ca0:" + str(f.get("what"))),
+                          {"what": "ca0", "oracle": "sub-variable analysis"})
+    # ---- WARNINGS AS ERRORS (after seeded change C03-8: an np.errstate block narrowed so that a zero base
+    # warns instead of quietly giving NaN): every third case is read again on a fresh partition with
+    # `warnings.simplefilter("error")`; the values must be the same (a proportion with a zero base IS NaN,
+    # it does not raise).  The unchanged library emits no warning on these reads.
+    for case in cases:
+        if int(case.get("k", 0)) % 3 and not case.get("empty_wave"):
+            continue
+        io = impl_run(case)
+        impl.WARN_FILTER = "error"
+        try:
+            io_w = impl_run(case)
+        finally:
+            impl.WARN_FILTER = "ignore"
+        rep.dist("warnings-as-errors")
+        for n in [x for x in (N1 if io["ndim"] == 1 else N2) if x in WARN_NAMES]:
+            a, b = canon_read(io["v"][n]), canon_read(io_w["v"][n])
+            if a != b:
+                rep.violation("impl-vs-property", cc.replayable(case),
+                              {"what": "%s differs when warnings are errors" % n, "normal": a,
+                               "warnings_as_errors": b},
+                              {"measure": n, "oracle": "warnings_as_errors"})
+                break
     rep.cov["rule"] = (
         "random.Random(seed): surveys (0-40 respondents, dyadic weights incl. 0, missing categories anywhere, "
         "per-item MR missingness) tabulated to CAT|CAT_DATE|MR|CA slices and CAT|CAT_DATE|MR strands with view/"
@@ -439,7 +495,27 @@ def run(tier, seed):
 def replay(path):
     d = json.load(open(path))
     case = d["violation"]["case"]
+    if case.get("leg") == "ca0":
+        from harness.props import c06
+        fails = [f for f in c06.check_ca0(case)
+                 if "proportion" in str(f.get("attr", "")) or "percentage" in str(f.get("attr", ""))
+                 or f.get("what") in ("exception", "n_partition_sets", "partition_type")]
+        for f in fails[:5]:
+            print("REPLAY still fails:", json.dumps(core.jsonable(f))[:600])
+        if not fails:
+            print("REPLAY: no longer fails")
+        return 1 if fails else 0
     rep = core.Report(PID, "quick", d.get("seed", 0))
+    if d["violation"].get("ctx", {}).get("oracle") == "warnings_as_errors":
+        io = impl_run(case)
+        impl.WARN_FILTER = "error"
+        try:
+            io_w = impl_run(case)
+        finally:
+            impl.WARN_FILTER = "ignore"
+        bad = [n for n in (N1 if io["ndim"] == 1 else N2) if n in WARN_NAMES and canon_read(io["v"][n]) != canon_read(io_w["v"][n])]
+        print("REPLAY still fails: %s differ when warnings are errors" % bad if bad else "REPLAY: no longer fails")
+        return 1 if bad else 0
     evaluate([case], rep, tag="replay")
     for v in rep.violations:
         print("REPLAY still fails:", json.dumps(v["detail"])[:600])
